@@ -14,7 +14,7 @@
    [exec_rules] = one record through all rules, [run] = p.execute of one block,
    [next_line] = nextLine, [do_getline] = the Getline* opcodes. *)
 From Verif Require Import Lib.Base Model.Input Proofs.Input Proofs.InputLift Proofs.InputHist Proofs.InputCtl
-  Proofs.InputMain Proofs.InputScript Proofs.InputRange.
+  Proofs.InputMain Proofs.InputScript Proofs.InputRange Proofs.InputHistory.
 
 (* ------------------------------------------------------------------------------------------ *)
 (* main_input_order + assign_operands_timing.
@@ -382,6 +382,54 @@ Print Assumptions C11_assign_value.
 
 (* the former witness: the operand "g=a\nb" now yields the value "a\nb" *)
 Example C11_ex_assign_newline : parse_assign [103; 61; 97; 10; 98] = Some ([103], [97; 10; 98]).
+Proof. vm_compute. reflexivity. Qed.
+
+(* ------------------------------------------------------------------------------------------ *)
+(* operation histories: several Execute calls on one Interpreter ([exec_history]: resetCore +
+   setExecuteConfig + executeAll per run; [reset] = ResetVars between the runs).
+   Every run is executeAll from the INITIAL input state [init_st] (operand cursor 1, no file seen,
+   NR = FNR = 0, no open stream, status 0) and, inside exec_all, from all-false range flags: nothing of
+   the input bookkeeping of run k-1 is visible in run k; only the program's own state U may be carried. *)
+Theorem C11_history_runs_start_fresh :
+  forall (U : Type) (step : U -> st -> req * U) (enter : blk -> U -> U) (a0 : bytes)
+         reset fuel rules has_end u0 runs u,
+    Forall2 (fun (r : run_in) (x : fin U) =>
+               let '(e, args, sin) := r in
+               exists uk, x = exec_all U step enter e fuel rules has_end uk (init_st a0 args sin))
+            runs (exec_history U step enter a0 reset fuel rules has_end u0 u runs).
+Proof. exact exec_history_fresh_input. Qed.
+(* with ResetVars each run IS the fresh run *)
+Theorem C11_history_reset_is_fresh :
+  forall (U : Type) (step : U -> st -> req * U) (enter : blk -> U -> U) (a0 : bytes) fuel rules has_end u0 runs,
+    exec_history U step enter a0 true fuel rules has_end u0 u0 runs =
+    map (fun r : run_in => let '(e, args, sin) := r in
+           exec_all U step enter e fuel rules has_end u0 (init_st a0 args sin)) runs.
+Proof. exact exec_history_reset. Qed.
+(* the history function the correspondence check evaluates ([script_history], extracted): with or
+   without ResetVars it is the list of the fresh runs, and run k depends on the inputs of run k only *)
+Theorem C11_script_history_is_fresh : forall p fuel reset runs u,
+  exec_history (list stmt) (sstep p) (senter p) [103;111;97;119;107] reset fuel (map rule_of (sp_rules p))
+               (match sp_end p with [] => false | _ => true end) [] u runs
+  = script_history p fuel runs.
+Proof. exact script_history_is_fresh. Qed.
+Theorem C11_script_history_run_independent : forall p fuel runs k e args sin,
+  nth_error runs k = Some (e, args, sin) ->
+  nth_error (script_history p fuel runs) k = Some (script_exec e p fuel args sin).
+Proof. exact script_history_nth. Qed.
+Print Assumptions C11_history_runs_start_fresh.
+Print Assumptions C11_script_history_is_fresh.
+Print Assumptions C11_script_history_run_independent.
+
+(* the seeded-defect shape: /S/,/E/ { T(1) }  run on f1 = [a; b S] (range open at the end of the run),
+   then on f2 = [c]: the second run selects nothing *)
+Definition ex_hist_env : env :=
+  mkEnv [([102; 49], [[97]; [98; 32; 83]]); ([102; 50], [[99]])] [] [] false.
+Definition ex_hist_prog : sprog :=
+  mkProg [] [mkSRule (SPRange (mkPat [] (CHas 83)) (mkPat [] (CHas 69))) (Some [STrace 1 []])] [] [].
+Example C11_ex_history :
+  map (fun x => match x with FOk _ s => Some (length (out s)) | _ => None end)
+      (script_history ex_hist_prog 100 [(ex_hist_env, [[102; 49]], []); (ex_hist_env, [[102; 50]], [])])
+  = [Some 1%nat; Some 0%nat].
 Proof. vm_compute. reflexivity. Qed.
 
 (* ------------------------------------------------------------------------------------------ *)
